@@ -2228,6 +2228,10 @@ impl NullableInterval {
     /// If the interval has collapsed to a single value, return that value.
     /// Otherwise, returns `None`.
     ///
+    /// Note that a [`NullableInterval::MaybeNull`] never collapses to a single
+    /// value: Even if its values interval is a singleton, `NULL` is still a
+    /// possibility.
+    ///
     /// # Examples
     ///
     /// ```
@@ -2249,13 +2253,23 @@ impl NullableInterval {
     ///     .unwrap(),
     /// };
     /// assert_eq!(interval.single_value(), None);
+    ///
+    /// // Either 4 or NULL, hence not a single value:
+    /// let interval = NullableInterval::MaybeNull {
+    ///     values: Interval::try_new(
+    ///         ScalarValue::Int32(Some(4)),
+    ///         ScalarValue::Int32(Some(4)),
+    ///     )
+    ///     .unwrap(),
+    /// };
+    /// assert_eq!(interval.single_value(), None);
     /// ```
     pub fn single_value(&self) -> Option<ScalarValue> {
         match self {
             Self::Null { datatype } => {
                 Some(ScalarValue::try_from(datatype).unwrap_or(ScalarValue::Null))
             }
-            Self::MaybeNull { values } | Self::NotNull { values }
+            Self::NotNull { values }
                 if values.lower == values.upper && !values.lower.is_null() =>
             {
                 Some(values.lower.clone())
